@@ -189,6 +189,8 @@ impl Vm {
             let schema = schema().get(opcode).expect("unknown opcode");
             let mut operands = vec![];
             let mut values = vec![];
+            // a jump offset is encoded like a reference but names no heap cell
+            let is_jump = matches!(opcode, OpCode::Jmp | OpCode::Jnt);
             for it in &schema.operands {
                 let operand = match it {
                     Operand::Acc => &VCell::Acc,
@@ -197,7 +199,7 @@ impl Vm {
 
                 operands.push((operand.clone(), it.clone()));
 
-                if values.is_empty() {
+                if values.is_empty() && !is_jump {
                     match operand {
                         VCell::Ptr(_) => {
                             values.push(self.heap.get_as_cell(operand).to_string());
